@@ -996,8 +996,9 @@ func (pc *PartitionContext) allocate(result *objects.AllocationResult) *objects.
 			zap.String("nodeID", targetNodeID),
 			zap.String("appID", appID))
 
-		// attempt to deallocate
-		if alloc.IsAllocated() {
+		// attempt to deallocate: only an allocation made by this result is unwound. For a reservation or the clean up
+		// of a reservation the target is the reserved node, the ask can be allocated on a node that is still there.
+		if alloc.IsAllocated() && (result.ResultType == objects.Allocated || result.ResultType == objects.AllocatedReserved) {
 			allocKey := alloc.GetAllocationKey()
 			if _, err := app.DeallocateAsk(allocKey); err != nil {
 				log.Log(log.SchedPartition).Warn("Failed to unwind allocation",
